@@ -206,7 +206,10 @@ Step(kind, w, o, w2, r) ==
                \cup If(d.ex /\ Ids(d) \cap Ids(a) # {}, "C20:decoded_shares_items")
                \cup If(o.j # i /\ w2[i] # a, "C20:decode_changed_source")
                \cup If("twin" \in DOMAIN o /\ r.ok /\ (LET t == w2[o.twin] IN
-                          ~t.ex \/ Len(t.items) # Len(d.items) \/ t.chans # d.chans \/ t.aux # d.aux), "C20:second_decode_differs")
+                          ~t.ex \/ Len(t.items) # Len(d.items) \/ t.chans # d.chans \/ t.aux # d.aux
+                          \* the same bytes decoded twice: the same content, item by item
+                          \/ (Len(t.items) = Len(d.items) /\ \E k \in 1..Len(d.items) : t.items[k].val # d.items[k].val)),
+                       "C20:second_decode_differs")
           [] o.op = "add"         -> AddClauses(kind, a, b, o, r)
           [] o.op = "remove"      -> RemoveClauses(kind, a, b, o, r)
           [] o.op = "assign"      -> AssignClauses(kind, a, b, o, r)
